@@ -50,7 +50,7 @@ def shards(tier):
 
 def required_counters(tier):
     return {
-        "near_recursion_limit.checks": 500, "near_recursion_limit.died_with_RecursionError": 30,
+        "nested.enclosing_scope_compared": 300, "near_recursion_limit.checks": 500, "near_recursion_limit.died_with_RecursionError": 30,
         "question_axes.later_check_fails_after_binding": 200, "unknown_size.bound_then_concrete_size_checked": 50,
         "fail.with_tentative": 1000,
         "fail.array": 500,
@@ -702,10 +702,32 @@ def run_case(rec, rng, only=None, rngkey=None):
         single, variadic, state = build_state(rng, args if kind == "call" else {})
         fn(rec, rng, single, variadic, state, args if kind == "call" else {})
 
-    if kind == "call":
-        real.in_call_context(args["n"], args["m"], body)
+    def inner():
+        if kind == "call":
+            real.in_call_context(args["n"], args["m"], body)
+        else:
+            real.in_block_context(body)
+
+    if rng.random() < 0.3:
+        # the scenario runs one level down: the ENCLOSING scope has bindings of its own under the usual names, and
+        # whatever fails, raises or is rolled back inside leaves them exactly as they were
+        def outer():
+            import jaxtyping
+
+            N = np.ndarray
+            isinstance(real.np_array((11, 12, 13)), jaxtyping.Shaped[N, "a b c"])
+            isinstance(real.np_array((14, 15, 16, 17)), jaxtyping.Shaped[N, "n m *v"])
+            isinstance([0], jaxtyping.PyTree[int, "T"])
+            before = real.raw_transcript()
+            inner()
+            after = real.raw_transcript()
+            rec.count("nested.enclosing_scope_compared")
+            if before != after:
+                rec.violation("rollback-nested", {"rngkey": rngkey, "scenario": fn.__name__, "kind": kind, "enclosing_before": before, "enclosing_after": after}, f"a scope enclosing the scenario {fn.__name__} ({kind}) had {before!r}; after the inner scope ended it has {after!r}", mechanism="enclosing-scope-changed-by-inner-check")
+
+        real.in_block_context(outer)
     else:
-        real.in_block_context(body)
+        inner()
 
 
 def suite_arm(rec):
